@@ -17,22 +17,36 @@ def get_corpus(ctx, n=None, tag=None, **kw):
     if key not in _cache:
         rng = random.Random(ctx.seed * 7919 + 17)
         progs = [corpus.gen_program(rng, i, **kw) for i in range(n)]
-        try:
-            exes = corpus.build_corpus(tag, progs, nshards=16)
-        except c.BuildError as e:
-            # valid generated programs that stop compiling are themselves concrete failing inputs:
-            # report them, drop them, and go on with the rest of the corpus
-            bad = sorted(set(re.findall(r"src/(p\d+)_mod\.rs", e.out)), key=lambda s: int(s[1:]))
-            if not bad or len(bad) > len(progs) // 2:
-                raise
-            by_id = {p["id"]: p for p in progs}
-            for pid in bad[:3]:
-                m = re.search(r"(error[^\n]*\n(?:[^\n]*\n){0,8}?[^\n]*%s_mod\.rs[^\n]*\n(?:[^\n]*\n){0,10})" % pid, e.out)
-                ctx.violation("valid-program-rejected", "generated program %s (valid on the pinned tree) no longer compiles: %s" % (
-                    pid, (m.group(1) if m else "")[:400].replace("\n", " | ")),
-                    {"program": corpus.render_module(by_id[pid]), "rustc": (m.group(1) if m else e.out[-2000:])})
-            progs = [p for p in progs if p["id"] not in bad]
-            exes = corpus.build_corpus(tag, progs, nshards=16)
+        by_id = {p["id"]: p for p in progs}
+        skipped, exes = [], None
+        for attempt in range(6):
+            try:
+                exes = corpus.build_corpus(tag, progs, nshards=16)
+                break
+            except c.BuildError as e:
+                # valid generated programs that stop compiling are themselves concrete failing inputs: report them (see below which
+                # checks do), drop them, and go on with the rest of the corpus; the compiler's output may be cut, so prune repeatedly
+                bad = sorted(set(re.findall(r"src/(p\d+)_mod\.rs", e.out)) & {p["id"] for p in progs}, key=lambda s: int(s[1:]))
+                if not bad or attempt == 5 or len(skipped) + len(bad) > (len(by_id) * 2) // 3:
+                    raise
+                for pid in bad:
+                    m = re.search(r"(error[^\n]*\n(?:[^\n]*\n){0,8}?[^\n]*%s_mod\.rs[^\n]*\n(?:[^\n]*\n){0,10})" % pid, e.out)
+                    err = m.group(1) if m else ""
+                    # A valid program that stops compiling is a failing input of the properties that speak about acceptance / generation
+                    # for every program, and of the property whose generated items the compiler complains about; the other checks go on
+                    # with the rest of the corpus and record the program as skipped.
+                    if not (ctx.pid in REJECTION_IS_VIOLATION or re.search(ERROR_SIGNATURE.get(ctx.pid, "$^"), err)):
+                        skipped.append(pid)
+                        continue
+                    if sum(1 for v in ctx.violations if v["cls"] == "valid-program-rejected") < 3:
+                        ctx.violation("valid-program-rejected", "generated program %s (valid on the pinned tree) no longer compiles: %s" % (
+                            pid, err[:400].replace("\n", " | ")),
+                            {"program": corpus.render_module(by_id[pid]), "rustc": (err or e.out[-2000:])})
+                progs = [p for p in progs if p["id"] not in bad]
+        if skipped:
+            ctx.cov["corpus_programs_not_compiling_skipped"] = skipped
+            ctx.assumptions.append("%d corpus programs do not compile on this tree for a reason outside this property's generated items; they are the "
+                                   "failing inputs of the acceptance properties (C01, C05, C14, C15, C19) and were skipped here" % len(skipped))
         _cache[key] = (progs, exes)
     return _cache[key]
 
@@ -53,6 +67,23 @@ def run_both(ctx, name, progs, ops_by_prog):
             model_ops.append(op)
             index.append((pid, op))
     return impl_ops, model_ops, index
+
+
+# properties whose statement covers "every (valid) program is accepted / its messages are generated"
+REJECTION_IS_VIOLATION = {"C01", "C05", "C14", "C15", "C19"}
+# what the compiler complains about when a property's own generated items are what broke
+ERROR_SIGNATURE = {
+    "C02": r"dispatch|ExecCtx|QueryCtx|SudoCtx|InstantiateCtx|MigrateCtx",
+    "C03": r"Contract(Exec|Query|Sudo)Msg|Deserialize",
+    "C04": r"dispatch|entry_points",
+    "C06": r"entry_points",
+    "C07": r"REPLY_ID|dispatch_reply|ReplyCtx|SubMsgMethods|reply",
+    "C08": r"REPLY_ID|SubMsgMethods|payload|reply",
+    "C09": r"sv::data|response_data|ReplyCtx",
+    "C10": r"Remote|Executor|BoundQuerier|InstantiateBuilder|executor|querier",
+    "C12": r"multitest|mt::|CodeId|Proxy|cw_multi_test",
+    "C16": r"QueryResponses|response_schemas|JsonSchema",
+}
 
 
 def execute(ctx, name, progs, exes, ops_by_prog):
